@@ -130,6 +130,8 @@ def main(argv=None):
                skipped_jobs=0)
     states, distinct, outcomes = set(), set(), {}
     violations, samples, extra = [], [], {}
+    known_open = load_known(prop)
+    known_sigs_seen, known_instances = set(), []
     harness_errors = []
 
     nworkers = max(1, min(args.workers, len(jobs) or 1))
@@ -164,7 +166,16 @@ def main(argv=None):
             distinct.update(r.get('distinct', ()))
             for k, v in r.get('outcomes', {}).items():
                 outcomes[k] = outcomes.get(k, 0) + v
-            violations.extend(r.get('violations', ()))
+            for v_ in r.get('violations', ()):
+                s_ = v_.get('signature') or v_.get('violation')
+                if match_known(known_open, s_) is not None:
+                    # an open known finding: remember one instance, do not let it count
+                    # towards the early-stop limit or crowd out other violations
+                    if s_ not in known_sigs_seen:
+                        known_sigs_seen.add(s_)
+                        known_instances.append(v_)
+                else:
+                    violations.append(v_)
             if len(samples) < 8:
                 samples.extend(r.get('samples', ())[:2])
             for k, v in r.get('extra', {}).items():
@@ -197,7 +208,7 @@ def main(argv=None):
     # ---- verdicts ----------------------------------------------------------
     known = load_known(prop)
     new, seen_known, seen_sig = [], {}, set()
-    for v in violations:
+    for v in known_instances + violations:
         sig = v.get('signature') or v.get('violation')
         if sig in seen_sig:
             continue
